@@ -3,6 +3,8 @@
 package cl
 
 import (
+	"strings"
+
 	"github.com/ohler55/slip"
 )
 
@@ -53,7 +55,7 @@ func (f *Block) Call(s *slip.Scope, args slip.List, depth int) (result slip.Obje
 	case nil:
 		// leave as nil
 	case slip.Symbol:
-		ns.Name = ta
+		ns.Name = slip.Symbol(strings.ToLower(string(ta)))
 	default:
 		slip.TypePanic(s, depth, "name", ta, "symbol", "nil")
 	}
